@@ -54,12 +54,3 @@ Print Assumptions gen_am_headers_get_all_eq.
 Print Assumptions gen_am_headers_get_eq.
 Print Assumptions gen_am_headers_len_eq.
 
-(* ------------------------------------------------------------------ src/ext.rs: HeaderIterExt::has *)
-From Hoot Require Import Httparse Parser.
-Theorem gen_headers_has_eq l k v : gen_headers_has l k v = headers_has l k v.
-Proof.
-  unfold gen_headers_has, headers_has.
-  induction l as [|h l IH]; cbn [filter existsb]; [reflexivity|].
-  destruct (beq_bytes (fst h) k); cbn [existsb andb]; rewrite IH; reflexivity.
-Qed.
-Print Assumptions gen_headers_has_eq.
